@@ -14,6 +14,7 @@ import operator
 import os
 import re
 import textwrap
+import time
 import types
 
 import z3
@@ -97,6 +98,8 @@ class Interp:
         self.nqueries = 0
         self.unknown_feasibility = 0
         self.digit_defs = set()
+        self.named_terms = {}
+        self.assume_requires = 0
         self.entails_cache = {}
         self.domains = {}           # char variable name -> sorted list of admissible code points (for canon)
         self.no_branch = 0
@@ -107,7 +110,7 @@ class Interp:
     def reset_path(self, decisions):
         self.decisions = list(decisions)
         self.pos = 0
-        self.pc = []
+        self.pc = list(getattr(self, "base_pc", ()))
         self.heap = {}
         self.writes = []
         self.local_ids = set()
@@ -115,6 +118,7 @@ class Interp:
         self.keep = []              # keeps objects alive so that ids stay unique during a path
         self.cur_model = None
         self.cur_model_key = None
+        self.path_history = []      # earlier calls a path assumes (cache hits): replayed natively as a prelude
         self.defs = []              # definitional constraints of fresh variables (digits of a term ...)
         self.fresh_n = 0
 
@@ -267,6 +271,8 @@ class Interp:
         n = 0
         while True:
             self.reset_path(decisions)
+            if getattr(self, "deadline", None) and time.time() > self.deadline:
+                raise Unsupported("exploration exceeded the task time budget")
             try:
                 try:
                     out = ("return", thunk())
@@ -276,7 +282,8 @@ class Interp:
                 if n > max_paths:
                     raise Unsupported(f"more than {max_paths} paths")
                 yield dict(pc=list(self.pc) + list(self.defs), kind=out[0], value=out[1], writes=list(self.writes),
-                           obligations=list(self.path_obligations), heap=dict(self.heap), keep=list(self.keep))
+                           obligations=list(self.path_obligations), heap=dict(self.heap), keep=list(self.keep),
+                           history=list(self.path_history))
             except Infeasible:
                 pass
             decisions = self.decisions
@@ -288,6 +295,11 @@ class Interp:
 
     def oblige(self, name, clause):
         """safety / precondition obligation under the current path condition"""
+        if self.assume_requires:
+            if not self.feasible(clause)[0]:
+                raise Infeasible()
+            self.pc.append(clause)
+            return
         self.path_obligations.append((name, list(self.pc) + list(self.defs), clause))
 
     def alloc(self, obj):
@@ -683,6 +695,16 @@ class Interp:
                                                z3.And(total == vs, *[z3.And(d >= 0, d <= 9) for d in ds])))
         return [48 + d for d in ds]
 
+    def name_term(self, t, prefix):
+        """content-addressed constant standing for the compound term t (definition kept among the assumptions):
+        keeps later formulas small and lets canon treat the character as a variable"""
+        key = hashlib.sha1(t.sexpr().encode()).hexdigest()[:14]
+        v = z3.Int(f"{prefix}!{key}")
+        if key not in self.named_terms:
+            self.named_terms[key] = t
+            self.assumptions.append(v == t)
+        return v
+
     def concat(self, parts):
         """concatenate str / SStr / SDecStr parts"""
         if all(isinstance(p, str) for p in parts):
@@ -894,6 +916,8 @@ class Interp:
         return "".join(out)
 
     def vector_of(self, s, n):
+        if getattr(self, "name_vector_chars", False):
+            return SStr([self.name_term(s.at(z3.IntVal(i)), "ch") for i in range(n)])
         return SStr([s.at(z3.IntVal(i)) for i in range(n)])
 
     def slice_fn(self, s, lo, hi, st):
@@ -949,10 +973,17 @@ class Interp:
                     raise Raised(IndexError("index out of range"))
                 vals = [ord(x) if isinstance(obj, str) else x for x in obj]
                 if all(isinstance(x, int) and not isinstance(x, bool) for x in vals):
-                    ix = z3.If(idx.t < 0, idx.t + n, idx.t)
-                    t = z3.IntVal(vals[-1])
-                    for k in range(n - 2, -1, -1):
-                        t = z3.If(ix == k, vals[k], t)
+                    ix = idx.t if self.entails(idx.t >= 0) else z3.If(idx.t < 0, idx.t + n, idx.t)
+                    # runs of consecutive indices whose values differ from the index by a constant: one ite per run
+                    runs = []
+                    for k, val in enumerate(vals):
+                        if runs and runs[-1][2] == val - k:
+                            runs[-1][1] = k
+                        else:
+                            runs.append([k, k, val - k])
+                    t = ix + runs[-1][2]
+                    for lo, hi, off in runs[-2::-1]:
+                        t = z3.If(z3.And(ix >= lo, ix <= hi), ix + off, t)
                     return SStr([t]) if isinstance(obj, str) else SInt(t)
                 for k in range(n):
                     if self.branch(SBool(z3.Or(idx.t == k, idx.t == k - n))):
